@@ -69,6 +69,8 @@ fn main() {
             for line in stdin.lock().lines() {
                 let line = line.unwrap();
                 writeln!(out, "{}", run_line(&line)).unwrap();
+                // one flushed line per case: the runner attributes a crash or a stall to the first unanswered case
+                out.flush().unwrap();
             }
         }
         _ => {
